@@ -107,6 +107,11 @@ impl DevState {
             let pg = o / PAGE;
             let po = (o % PAGE) as usize;
             let n = (PAGE as usize - po).min(data.len() - i);
+            // sparse: writing fill bytes into a page that was never materialised changes nothing
+            if !self.pages.contains_key(&pg) && data[i..i + n].iter().all(|b| *b == fill) {
+                i += n;
+                continue;
+            }
             let p = self.pages.entry(pg).or_insert_with(|| Box::new([fill; PAGE as usize]));
             p[po..po + n].copy_from_slice(&data[i..i + n]);
             i += n;
